@@ -246,6 +246,60 @@ def aliasRiskL : List Q → Bool
 end
 
 
+
+/-! ### scalar lambda bodies (the class the fusion theorems cover) -/
+
+def opName (f : String) : Bool := f == "Select" || f == "SelectMany" || f == "Where" || f == "First"
+
+def tagOk (t : String) : Bool := t != "sub" && t != "dict"
+
+mutual
+/-- A lambda-free expression built from names, constants, calls of named functions other than the sequence
+operators, method calls, and operator nodes other than subscripts and dict displays: `j.pt()*2 > abs(j.eta())`,
+`(j.pt(), twice(j.eta()))`, `j.pt() if j.b() else 0`. -/
+def scalar : Q → Bool
+  | .var _ => true
+  | .lit _ => true
+  | .lam _ _ => false
+  | .app (.var f) as => !opName f && scalarL as
+  | .app (.node t [recv]) as => tagOk t && scalar recv && scalarL as
+  | .app _ _ => false
+  | .node t ks => tagOk t && scalarL ks
+def scalarL : List Q → Bool
+  | [] => true
+  | q :: qs => scalar q && scalarL qs
+end
+
+mutual
+/-- replace every name by what the frame stack binds it to -/
+def subst (env : Stack Q) : Q → Q
+  | .var x => (env.lookup x).getD (.var x)
+  | .lit c => .lit c
+  | .lam ps b => .lam ps (subst env b)
+  | .app f as => .app (subst env f) (substL env as)
+  | .node t ks => .node t (substL env ks)
+def substL (env : Stack Q) : List Q → List Q
+  | [] => []
+  | q :: qs => subst env q :: substL env qs
+end
+
+mutual
+/-- fuel that `simplify` needs on a term that triggers no re-visit -/
+def depth : Q → Nat
+  | .var _ => 1
+  | .lit _ => 1
+  | .lam _ b => depth b + 1
+  | .app f as => max (depth f) (depthL as) + 1
+  | .node _ ks => depthL ks + 1
+def depthL : List Q → Nat
+  | [] => 1
+  | q :: qs => max (depth q) (depthL qs) + 1
+end
+
+def isDictNode : Q → Bool
+  | .node t _ => t == "dict"
+  | _ => false
+
 /-! ### canonical names, capture freedom -/
 
 def canonName (k : Nat) : String := "u_" ++ toString k
@@ -271,10 +325,12 @@ def canonNames (q : Q) : Q := unresolve 0 (resolve [] q)
 captures: a parameter bound again inside a β-reduced `Where` predicate or directly called lambda, a parameter
 called `acc`/`v` around a Count/Sum, a parameter called `arg_<n>`, a lambda pushed under a `SelectMany`
 parameter of the same name. -/
-def captureFreeB (fuel : Nat) (q : Q) : Bool :=
-  let a := (simp fuel [] 0 (preSimp q)).1
-  let b := (simp fuel [] 0 (preSimp (canonNames (strip q).1))).1
+def captureFree0 (fuel : Nat) (t : Q) : Bool :=
+  let a := (simplify fuel [] 0 (aggNorm (normStyle t))).1
+  let b := (simplify fuel [] 0 (aggNorm (normStyle (canonNames t)))).1
   (hasBang a == hasBang b) && (hasBang a || resolve [] a == resolve [] b)
+
+def captureFreeB (fuel : Nat) (q : Q) : Bool := captureFree0 fuel (strip q).1
 
 mutual
 def probeArgs : Q → List Q
@@ -350,7 +406,7 @@ sub-expressions, hence different generated code).  `q` is the call-style, separa
 def fuseSiteOkB (fuel : Nat) (q : Q) (p : List Step) : Bool :=
   match mapAt siteSource p q with
   | some probed =>
-    let r := (simp fuel [] 0 (aggNorm probed)).1
+    let r := (simplify fuel [] 0 (aggNorm probed)).1
     let heads := probeArgs r
     siteLambdasClosedB q p &&
     !heads.isEmpty && heads.all (fun h => !(h.isCallOf "Select" || h.isCallOf "SelectMany" || h.isCallOf "Where"))
@@ -359,8 +415,8 @@ def fuseSiteOkB (fuel : Nat) (q : Q) (p : List Step) : Bool :=
 /-- the normal forms of `simplify_chained_calls` agree up to α (used to keep fusing variants whose *simplified
 queries* differ — re-association of three `Where`s, duplicated selections — out of the main stream) -/
 def sameNormalFormB (fuel : Nat) (q q' : Q) : Bool :=
-  let a := (simp fuel [] 0 (preSimp q)).1
-  let b := (simp fuel [] 0 (preSimp q')).1
+  let a := (simplify fuel [] 0 (preSimp q)).1
+  let b := (simplify fuel [] 0 (preSimp q')).1
   !hasBang a && !hasBang b && resolve [] a == resolve [] b
 
 end FaxVerif.C08
